@@ -996,7 +996,8 @@ class TestClientRecorder(BaseOperationRecorder):
         if isinstance(obj, bytes):
             return obj.decode("utf-8")
         if isinstance(obj, str):
-            return obj
+            # Char16 is a subclass of str which yaml cannot represent
+            return str(obj)
         if isinstance(obj, bool):
             # The check for bool must be before any integer checks, because
             # bool is a subclass of int in Python.
